@@ -258,6 +258,23 @@ def firstNonEmpty : List Bytes → Bytes
   | [] => []
   | s :: rest => if s = [] then firstNonEmpty rest else s
 
+/-- std's default `Write::write_all` (which `BodyWriter` does not override): `write` until the
+buffer is used up; `Ok(0)` is `WriteZero`, an error ends it. Reports the bytes accepted when all
+were, `err` otherwise. Fuel `bs.length + 1` suffices because every successful step consumes at
+least one byte. -/
+def Sys.writeAllF : Nat → Sys → Bytes → Nat → List Nat → Sys × POut × List Nat
+  | 0, s, _, _, wk => (s, .err, wk)
+  | fuel + 1, s, bs, total, wk =>
+    if bs.isEmpty then (s, .wrote total, wk)
+    else
+      match s.pop (.write bs) with
+      | (s', .wrote 0, w) => (s', .err, wk ++ w)
+      | (s', .wrote n, w) => Sys.writeAllF fuel s' (bs.drop n) (total + n) (wk ++ w)
+      | (s', _, w) => (s', .err, wk ++ w)
+
+def Sys.writeAll (s : Sys) (bs : Bytes) : Sys × POut × List Nat :=
+  Sys.writeAllF (bs.length + 1) s bs 0 []
+
 /-- `BodyWriter::write_vectored(slices)` on a raw writer. -/
 def Sys.writeVectored (s : Sys) (slices : List Bytes) : Sys × POut × List Nat :=
   s.pop (.write (firstNonEmpty slices))
